@@ -113,27 +113,122 @@ theorem gen_copyCtor (s : Heap) (this : Obj) (other : Cell) (hl : Live s other) 
     have h0 : blk.ref ≠ 0 := by omega
     simp [VariantRep.copyCtor, cref, ctype, ptrOf, Obj.incr, incrBlk, Obj.cell, copyCell, incr, norm, hb, h0]
 
-/-- the translated `operator=(const Variant&)`: nothing for `v = v`; otherwise take the handle of `other` first
-    (`copyCell`), then `release` the old payload, then install -/
+theorem incr_release_same (f : Nat) (s : Heap) (b : Nat) (blk : Deep.Block) (hb : s.heap b = some blk) (hr : 1 ≤ blk.ref) :
+    release (f + 1) (incr s b) (.ptr b) = some s := by
+  have hne : blk.ref + 1 ≠ 1 := by omega
+  obtain ⟨ref, pay⟩ := blk
+  cases s with
+  | mk heap next =>
+    simp only at hb hne
+    have e1 : (incr ⟨heap, next⟩ b).heap b = some ⟨ref + 1, pay⟩ := by simp [incr, hb, upd]
+    simp only [release, e1, hne, if_false]
+    simp [incr, hb, upd_upd2, upd_self heap b _ hb]
+
+theorem release_ref0 (f : Nat) (s : Heap) (b : Nat) (pay : Pay) (hb : s.heap b = some ⟨0, pay⟩) : release (f + 1) s (.ptr b) = some s := by
+  cases s with
+  | mk heap next =>
+    simp only at hb
+    simp only [release, hb]
+    simp [upd_self heap b _ hb]
+
+/-- `operator=(const Variant&)` between distinct objects, in composable form: it answers iff the release of the old payload (after
+    the source's handle was taken) does, with that heap, and leaves an object standing for (a representation of) the copied cell.
+    Only the resulting heap counts — a body that skips the increment / decrement pair when both sides already share the block
+    meets the same statement -/
+theorem assign_spec (f : Nat) (s : Heap) (this : Obj) (c src : Cell) (hc : this.cell = some c) (hl : Live s src) :
+    match release (f + 1) (copyCell s src).1 c with
+    | none => VariantRep.assign (release f) s this false src = none
+    | some h => ∃ o, VariantRep.assign (release f) s this false src = some (h, o) ∧ ∃ c', o.cell = some c' ∧ norm c' = norm (copyCell s src).2 := by
+  obtain ⟨data, own⟩ := this
+  rcases cell_inv _ _ hc with ⟨hd, rfl⟩ | ⟨b, hd, rfl⟩ | ⟨hd, hr, ⟨h0, rfl⟩ | ⟨hne, hu, hx, rfl⟩⟩ <;> simp only at hd <;> subst hd
+  · -- this = null
+    cases src with
+    | null => simp [VariantRep.assign, Raw.ptrEq, cref, ctype, descOf, Obj.ref, gen_clear f s _ _ hc, copyCell, release, Obj.cell, norm]
+    | inl x =>
+      have hx := hl.1 x rfl
+      cases x <;> simp [VariantRep.assign, Raw.ptrEq, cref, ctype, descOf, Obj.ref, gen_clear f s _ _ hc, copyCell, release, Obj.cell, norm,
+        Val.type, Val.isBoxed] at hx ⊢
+    | ptr b' =>
+      obtain ⟨blk, hb, hr⟩ := hl.2 b' rfl
+      have h0 : blk.ref ≠ 0 := by omega
+      simp [VariantRep.assign, Raw.ptrEq, cref, cincr, incrBlk, hb, h0, ptrOf, gen_clear f _ _ _ hc, copyCell, incr, release, Obj.cell, norm]
+  · -- this = block b
+    cases src with
+    | null =>
+      simp only [VariantRep.assign, Raw.ptrEq, cref, ctype, descOf, Obj.ref, gen_clear f s _ _ hc, copyCell]
+      cases hb : s.heap b with
+      | none => simp [release, hb]
+      | some blk =>
+        obtain ⟨r, pay⟩ := blk
+        by_cases hr0 : r = 0
+        · subst hr0; simp [release_ref0 f s b pay hb, Obj.cell, norm]
+        · cases release (f + 1) s (.ptr b) <;> simp [hr0, Obj.cell, norm]
+    | inl x =>
+      have hx := hl.1 x rfl
+      simp only [VariantRep.assign, Raw.ptrEq, cref, ctype, descOf, Obj.ref, gen_clear f s _ _ hc, copyCell]
+      cases hb : s.heap b with
+      | none => simp [release, hb]
+      | some blk =>
+        obtain ⟨r, pay⟩ := blk
+        by_cases hr0 : r = 0
+        · subst hr0
+          cases x <;> simp [release_ref0 f s b pay hb, Obj.cell, norm, Val.type, Val.isBoxed] at hx ⊢
+        · cases release (f + 1) s (.ptr b) <;> cases x <;> simp [hr0, Obj.cell, norm, Val.type, Val.isBoxed] at hx ⊢
+    | ptr b' =>
+      obtain ⟨blk, hb, hr⟩ := hl.2 b' rfl
+      have h0 : blk.ref ≠ 0 := by omega
+      by_cases e : b' = b
+      · subst e
+        have hsame := incr_release_same f s b' blk hb hr
+        simp only [copyCell, hsame]
+        first
+          | (simp [VariantRep.assign, Raw.ptrEq, Obj.cell, norm]; done)
+          | (simp only [VariantRep.assign, Raw.ptrEq, cref, cincr, incrBlk, hb, gen_clear f _ _ _ hc, ptrOf]
+             simp only [incr, hb] at hsame
+             simp [h0, hsame, Obj.cell, norm])
+      · have e' : (b' == b) = false := by simpa using e
+        simp only [VariantRep.assign, Raw.ptrEq, e', cref, cincr, incrBlk, hb, copyCell, incr]
+        simp only [Bool.false_eq_true, if_false, Option.map_some, ne_eq, h0, not_false_eq_true, if_true, gen_clear f _ _ _ hc, ptrOf]
+        cases release (f + 1) _ (Cell.ptr b) <;> simp [Obj.cell, norm]
+  · -- this = inline null
+    simp only at hr h0
+    cases src with
+    | null => simp [VariantRep.assign, Raw.ptrEq, cref, ctype, descOf, Obj.ref, hr, gen_clear f s _ _ hc, copyCell, release, Obj.cell, norm]
+    | inl x =>
+      have hx := hl.1 x rfl
+      cases x <;> simp [VariantRep.assign, Raw.ptrEq, cref, ctype, descOf, Obj.ref, hr, gen_clear f s _ _ hc, copyCell, release, Obj.cell, norm,
+        Val.type, Val.isBoxed] at hx ⊢
+    | ptr b' =>
+      obtain ⟨blk, hb, hrr⟩ := hl.2 b' rfl
+      have h0' : blk.ref ≠ 0 := by omega
+      simp [VariantRep.assign, Raw.ptrEq, cref, cincr, incrBlk, hb, h0', ptrOf, gen_clear f _ _ _ hc, copyCell, incr, release, Obj.cell, norm]
+  · -- this = inline scalar
+    simp only at hr
+    cases src with
+    | null => simp [VariantRep.assign, Raw.ptrEq, cref, ctype, descOf, Obj.ref, hr, gen_clear f s _ _ hc, copyCell, release, Obj.cell, norm]
+    | inl x =>
+      have hx' := hl.1 x rfl
+      cases x <;> simp [VariantRep.assign, Raw.ptrEq, cref, ctype, descOf, Obj.ref, hr, gen_clear f s _ _ hc, copyCell, release, Obj.cell, norm,
+        Val.type, Val.isBoxed] at hx' ⊢
+    | ptr b' =>
+      obtain ⟨blk, hb, hrr⟩ := hl.2 b' rfl
+      have h0' : blk.ref ≠ 0 := by omega
+      simp [VariantRep.assign, Raw.ptrEq, cref, cincr, incrBlk, hb, h0', ptrOf, gen_clear f _ _ _ hc, copyCell, incr, release, Obj.cell, norm]
+
+/-- the translated `operator=(const Variant&)`: nothing for `v = v`; otherwise the heap and the cell are those of: take the handle of
+    `other` first (`copyCell`), then `release` the old payload, then install -/
 theorem gen_assign (f : Nat) (s : Heap) (this : Obj) (c other : Cell) (hc : this.cell = some c) (hl : Live s other) :
     VariantRep.assign (release f) s this true other = some (s, this) ∧
     (VariantRep.assign (release f) s this false other).bind (fun r => r.2.cell.map (fun c' => (r.1, norm c')))
       = (release (f + 1) (copyCell s other).1 c).map (fun s' => (s', norm (copyCell s other).2)) := by
   refine ⟨by simp [VariantRep.assign], ?_⟩
-  cases other with
-  | null =>
-    simp only [VariantRep.assign, cref, ctype, descOf, gen_clear f s this c hc, copyCell]
-    cases release (f + 1) s c <;> simp [Obj.cell, norm]
-  | inl x =>
-    have hx := hl.1 x rfl
-    simp only [VariantRep.assign, cref, ctype, descOf, gen_clear f s this c hc, copyCell]
-    cases release (f + 1) s c <;> cases x <;> simp [Obj.cell, norm, Val.type, Val.isBoxed] at hx ⊢
-  | ptr b =>
-    obtain ⟨blk, hb, hr⟩ := hl.2 b rfl
-    have h0 : blk.ref ≠ 0 := by omega
-    simp only [VariantRep.assign, cref, cincr, incrBlk, hb, copyCell, incr]
-    simp only [Bool.false_eq_true, if_false, Option.map_some, ne_eq, h0, not_false_eq_true, if_true, gen_clear f _ this c hc, ptrOf]
-    cases release (f + 1) _ c <;> simp [Obj.cell, norm]
+  have h := assign_spec f s this c other hc hl
+  cases hr : release (f + 1) (copyCell s other).1 c with
+  | none => rw [hr] at h; simp only at h; simp [h]
+  | some h' =>
+    rw [hr] at h; simp only at h
+    obtain ⟨o, e, c', hc', hn⟩ := h
+    simp [e, hc', hn]
 
 theorem type_of_cell (s : Heap) (this : Obj) (c : Cell) (hc : this.cell = some c) (hl : Live s c) :
     Obj.type s this = some (cellType s c) := by
@@ -857,27 +952,6 @@ theorem copyCtor_spec (s : Heap) (raw : Obj) (src : Cell) (hl : Live s src) :
       simp only [hc, Option.map_some, Option.some.injEq, Prod.mk.injEq] at this
       exact ⟨h, o, rfl, this.1, c', hc, this.2⟩
 
-/-- `operator=(const Variant&)` between distinct objects, in composable form: it answers iff the release of the old payload does, with that
-    heap, and leaves an object standing for (a representation of) the copied cell -/
-theorem assign_spec (f : Nat) (s : Heap) (this : Obj) (c src : Cell) (hc : this.cell = some c) (hl : Live s src) :
-    match release (f + 1) (copyCell s src).1 c with
-    | none => VariantRep.assign (release f) s this false src = none
-    | some h => ∃ o, VariantRep.assign (release f) s this false src = some (h, o) ∧ ∃ c', o.cell = some c' ∧ norm c' = norm (copyCell s src).2 := by
-  cases src with
-  | null =>
-    simp only [VariantRep.assign, cref, ctype, descOf, gen_clear f s this c hc, copyCell]
-    cases release (f + 1) s c <;> simp [Obj.cell, norm]
-  | inl x =>
-    have hx := hl.1 x rfl
-    simp only [VariantRep.assign, cref, ctype, descOf, gen_clear f s this c hc, copyCell]
-    cases release (f + 1) s c <;> cases x <;> simp [Obj.cell, norm, Val.type, Val.isBoxed] at hx ⊢
-  | ptr b =>
-    obtain ⟨blk, hb, hr⟩ := hl.2 b rfl
-    have h0 : blk.ref ≠ 0 := by omega
-    simp only [VariantRep.assign, cref, cincr, incrBlk, hb, copyCell, incr]
-    simp only [Bool.false_eq_true, if_false, Option.map_some, ne_eq, h0, not_false_eq_true, if_true, gen_clear f _ this c hc, ptrOf]
-    cases release (f + 1) _ c <;> simp [Obj.cell, norm]
-
 /-- what `a.swap(b)` does on two distinct variables holding `cv` and `cw`, in the deep model's steps: `tmp = copy(b)`;
     `b = a` (copy of a, release of b's old payload); `a = tmp`; `~tmp` — result heap and the new cells of a and b -/
 def swapChain (f : Nat) (s : Heap) (cv cw : Cell) : Option (Heap × Cell × Cell) :=
@@ -892,52 +966,118 @@ def swapChainSelf (f : Nat) (s : Heap) (cv : Cell) : Option (Heap × Cell) :=
   (release (f + 1) h3 (copyCell s cv).2).map fun h4 => (h4, norm (copyCell (copyCell s cv).1 (copyCell s cv).2).2)
 
 
-/-- the translated `swap` on two distinct objects = the deep model's chain: the two cells are exchanged (up to the representation of null) -/
+theorem upd_comm2 {α} (f : Nat → α) (i j : Nat) (a b : α) (h : i ≠ j) : upd (upd f i a) j b = upd (upd f j b) i a := by
+  funext k; simp only [upd]; by_cases h1 : k = j <;> by_cases h2 : k = i <;> simp [h1, h2] <;> omega
+
+theorem incr_comm (s : Heap) (a b : Nat) : incr (incr s a) b = incr (incr s b) a := by
+  by_cases e : a = b
+  · subst e; rfl
+  · have e' : b ≠ a := fun h => e h.symm
+    cases s with
+    | mk heap next =>
+      cases ha : heap a <;> cases hb : heap b <;> simp [incr, ha, hb, upd, e, e']
+      rename_i A B
+      have := upd_comm2 heap a b (some { A with ref := A.ref + 1 }) (some { B with ref := B.ref + 1 }) e
+      simpa [upd] using this
+
+theorem copyCell_comm (s : Heap) (a b : Cell) : (copyCell (copyCell s a).1 b).1 = (copyCell (copyCell s b).1 a).1 := by
+  cases a <;> cases b <;> simp [copyCell, incr_comm]
+
+theorem norm_copy (s : Heap) (c : Cell) : norm (copyCell s c).2 = norm c := by
+  cases c <;> simp [copyCell, norm]
+
+theorem copy_release_same (f : Nat) (h : Heap) (c : Cell) (hl : Live h c) : release (f + 1) (copyCell h c).1 c = some h := by
+  cases c with
+  | null => simp [copyCell, release]
+  | inl x => simp [copyCell, release]
+  | ptr b =>
+    obtain ⟨blk, hb, hr⟩ := hl.2 b rfl
+    exact incr_release_same f h b blk hb hr
+
+/-- the deep model's swap chain on live cells is the identity on the heap and exchanges the two cells: every increment is undone by
+    the matching release (this is why a swap that exchanges the pointers without touching the counts computes the same) -/
+theorem swapChain_id (f : Nat) (s : Heap) (cv cw : Cell) (hlv : Live s cv) (hlw : Live s cw) :
+    swapChain f s cv cw = some (s, norm cw, norm cv) := by
+  have ht : norm (copyCell s cw).2 = norm cw := norm_copy s cw
+  have e2 : release (f + 1) (copyCell (copyCell s cw).1 cv).1 cw = some (copyCell s cv).1 := by
+    rw [copyCell_comm]; exact copy_release_same f _ cw (live_copyCell s cv cw hlw)
+  have e3 : release (f + 1) (copyCell (copyCell s cv).1 (copyCell s cw).2).1 cv = some (copyCell s cw).1 := by
+    rw [(copyCell_norm (copyCell s cv).1 _ cw ht).1, copyCell_comm]
+    exact copy_release_same f _ cv (live_copyCell s cw cv hlv)
+  have e4 : release (f + 1) (copyCell s cw).1 (copyCell s cw).2 = some s := by
+    rw [release_norm (f + 1) _ _ cw ht]; exact copy_release_same f s cw hlw
+  simp only [swapChain, e2, e3, e4, Option.bind_some, Option.map_some, norm_copy, ht]
+
+theorem swapChainSelf_id (f : Nat) (s : Heap) (cv : Cell) (hlv : Live s cv) : swapChainSelf f s cv = some (s, norm cv) := by
+  have ht : norm (copyCell s cv).2 = norm cv := norm_copy s cv
+  have e3 : release (f + 1) (copyCell (copyCell s cv).1 (copyCell s cv).2).1 cv = some (copyCell s cv).1 := by
+    rw [(copyCell_norm (copyCell s cv).1 _ cv ht).1]
+    exact copy_release_same f _ cv (live_copyCell s cv cv hlv)
+  have e4 : release (f + 1) (copyCell s cv).1 (copyCell s cv).2 = some s := by
+    rw [release_norm (f + 1) _ _ cv ht]; exact copy_release_same f s cv hlv
+  simp only [swapChainSelf, e3, e4, Option.bind_some, Option.map_some, norm_copy, ht]
+
+/-- **the translated `swap` exchanges the two cells and leaves the heap as it was** (distinct objects; up to the representation of
+    null).  Two proofs, whichever fits the current body: as the chain copy / assign / assign / destroy of the translated members
+    (= `swapChain`, which is the identity on live cells: `swapChain_id`), or directly for a body that exchanges the
+    representations without touching the counts. -/
 theorem gen_swap (f : Nat) (s : Heap) (raw this other : Obj) (cv cw : Cell) (hv : this.cell = some cv) (hw : other.cell = some cw)
     (hlv : Live s cv) (hlw : Live s cw) :
     (VariantRep.swap (release f) s raw this other false).bind (fun r => r.2.1.cell.bind fun a => r.2.2.cell.map fun b => (r.1, norm a, norm b))
-      = swapChain f s cv cw := by
-  obtain ⟨h1, tmp, e1, rfl, ct, hct, hnt⟩ := copyCtor_spec s raw cw hlw
-  have hlv1 : Live (copyCell s cw).1 cv := live_copyCell s cw cv hlv
-  have a2 := assign_spec f (copyCell s cw).1 other cw cv hw hlv1
-  simp only [VariantRep.swap, Bool.false_eq_true, if_false, hw, e1, hv]
-  unfold swapChain
-  cases hr2 : release (f + 1) (copyCell (copyCell s cw).1 cv).1 cw with
-  | none => rw [hr2] at a2; simp only at a2; simp [a2]
-  | some h2 =>
-    rw [hr2] at a2; simp only at a2
-    obtain ⟨other', e2, co, hco, hno⟩ := a2
-    simp only [e2, hct, Option.bind_some]
-    have hlt : Live h2 ct := live_norm _ _ _ hnt.symm (live_tmp_after f s cw cv h2 hlw hr2)
-    have a3 := assign_spec f h2 this cv ct hv hlt
-    have cn := copyCell_norm h2 ct (copyCell s cw).2 hnt
-    rw [cn.1] at a3
-    cases hr3 : release (f + 1) (copyCell h2 (copyCell s cw).2).1 cv with
-    | none => rw [hr3] at a3; simp only at a3; simp [a3]
-    | some h3 =>
-      rw [hr3] at a3; simp only at a3
-      obtain ⟨this', e3, cth, hcth, hnth⟩ := a3
-      simp only [e3, Option.bind_some, gen_destruct f h3 tmp ct hct, release_norm (f + 1) h3 ct _ hnt]
-      cases release (f + 1) h3 (copyCell s cw).2 <;> simp [hcth, hco, hnth, hno, cn.2]
+      = some (s, norm cw, norm cv) := by
+  first
+  | (rw [← swapChain_id f s cv cw hlv hlw]
+     obtain ⟨h1, tmp, e1, rfl, ct, hct, hnt⟩ := copyCtor_spec s raw cw hlw
+     have hlv1 : Live (copyCell s cw).1 cv := live_copyCell s cw cv hlv
+     have a2 := assign_spec f (copyCell s cw).1 other cw cv hw hlv1
+     simp only [VariantRep.swap, Bool.false_eq_true, if_false, hw, e1, hv]
+     unfold swapChain
+     cases hr2 : release (f + 1) (copyCell (copyCell s cw).1 cv).1 cw with
+     | none => rw [hr2] at a2; simp only at a2; simp [a2]
+     | some h2 =>
+       rw [hr2] at a2; simp only at a2
+       obtain ⟨other', e2, co, hco, hno⟩ := a2
+       simp only [e2, hct, Option.bind_some]
+       have hlt : Live h2 ct := live_norm _ _ _ hnt.symm (live_tmp_after f s cw cv h2 hlw hr2)
+       have a3 := assign_spec f h2 this cv ct hv hlt
+       have cn := copyCell_norm h2 ct (copyCell s cw).2 hnt
+       rw [cn.1] at a3
+       cases hr3 : release (f + 1) (copyCell h2 (copyCell s cw).2).1 cv with
+       | none => rw [hr3] at a3; simp only at a3; simp [a3]
+       | some h3 =>
+         rw [hr3] at a3; simp only at a3
+         obtain ⟨this', e3, cth, hcth, hnth⟩ := a3
+         simp only [e3, Option.bind_some, gen_destruct f h3 tmp ct hct, release_norm (f + 1) h3 ct _ hnt]
+         cases release (f + 1) h3 (copyCell s cw).2 <;> simp [hcth, hco, hnth, hno, cn.2])
+  | (obtain ⟨d1, o1⟩ := this
+     obtain ⟨d2, o2⟩ := other
+     rcases cell_inv _ _ hv with ⟨hd, rfl⟩ | ⟨b, hd, rfl⟩ | ⟨hd, hr, ⟨h0, rfl⟩ | ⟨hne, hu, hx, rfl⟩⟩ <;> simp only at hd <;> subst hd <;>
+       rcases cell_inv _ _ hw with ⟨hd', rfl⟩ | ⟨b', hd', rfl⟩ | ⟨hd', hr', ⟨h0', rfl⟩ | ⟨hne', hu', hx', rfl⟩⟩ <;> simp only at hd' <;> subst hd' <;>
+       simp_all [VariantRep.swap, isOwn, xptr, Obj.cell, norm])
 
 theorem gen_swap_self (f : Nat) (s : Heap) (raw this : Obj) (cv : Cell) (hv : this.cell = some cv) (hlv : Live s cv) :
     (VariantRep.swap (release f) s raw this this true).bind (fun r => r.2.1.cell.map fun a => (r.1, norm a))
-      = swapChainSelf f s cv := by
-  obtain ⟨h1, tmp, e1, rfl, ct, hct, hnt⟩ := copyCtor_spec s raw cv hlv
-  have hself : ∀ h, VariantRep.assign (release f) h this true cv = some (h, this) := fun h => by simp [VariantRep.assign]
-  have hlt : Live (copyCell s cv).1 ct := live_norm _ _ _ hnt.symm (live_copy_result s cv hlv)
-  have a3 := assign_spec f (copyCell s cv).1 this cv ct hv hlt
-  have cn := copyCell_norm (copyCell s cv).1 ct (copyCell s cv).2 hnt
-  rw [cn.1] at a3
-  simp only [VariantRep.swap, if_true, hv, e1, hself, hct]
-  unfold swapChainSelf
-  cases hr3 : release (f + 1) (copyCell (copyCell s cv).1 (copyCell s cv).2).1 cv with
-  | none => rw [hr3] at a3; simp only at a3; simp [a3]
-  | some h3 =>
-    rw [hr3] at a3; simp only at a3
-    obtain ⟨this', e3, cth, hcth, hnth⟩ := a3
-    simp only [e3, Option.bind_some, gen_destruct f h3 tmp ct hct, release_norm (f + 1) h3 ct _ hnt]
-    cases release (f + 1) h3 (copyCell s cv).2 <;> simp [hcth, hnth, cn.2]
+      = some (s, norm cv) := by
+  first
+  | (rw [← swapChainSelf_id f s cv hlv]
+     obtain ⟨h1, tmp, e1, rfl, ct, hct, hnt⟩ := copyCtor_spec s raw cv hlv
+     have hself : ∀ h, VariantRep.assign (release f) h this true cv = some (h, this) := fun h => by simp [VariantRep.assign]
+     have hlt : Live (copyCell s cv).1 ct := live_norm _ _ _ hnt.symm (live_copy_result s cv hlv)
+     have a3 := assign_spec f (copyCell s cv).1 this cv ct hv hlt
+     have cn := copyCell_norm (copyCell s cv).1 ct (copyCell s cv).2 hnt
+     rw [cn.1] at a3
+     simp only [VariantRep.swap, if_true, hv, e1, hself, hct]
+     unfold swapChainSelf
+     cases hr3 : release (f + 1) (copyCell (copyCell s cv).1 (copyCell s cv).2).1 cv with
+     | none => rw [hr3] at a3; simp only at a3; simp [a3]
+     | some h3 =>
+       rw [hr3] at a3; simp only at a3
+       obtain ⟨this', e3, cth, hcth, hnth⟩ := a3
+       simp only [e3, Option.bind_some, gen_destruct f h3 tmp ct hct, release_norm (f + 1) h3 ct _ hnt]
+       cases release (f + 1) h3 (copyCell s cv).2 <;> simp [hcth, hnth, cn.2])
+  | (obtain ⟨d1, o1⟩ := this
+     rcases cell_inv _ _ hv with ⟨hd, rfl⟩ | ⟨b, hd, rfl⟩ | ⟨hd, hr, ⟨h0, rfl⟩ | ⟨hne, hu, hx, rfl⟩⟩ <;> simp only at hd <;> subst hd <;>
+       simp_all [VariantRep.swap, isOwn, xptr, Obj.cell, norm])
 
 /-- …and that chain is the `swap` step of the function the driver runs -/
 theorem swapChain_dstep (ds : DblSem) (s : DState) (v w : Nat) (hvw : v ≠ w) (hv : v ≠ tmpVar) (hw : w ≠ tmpVar) :
